@@ -35,6 +35,7 @@
   `rrule(**parts)` on every generated rule.
 -/
 import ICal.Lemmas.Recur
+import ICal.Lemmas.BodiesRecur
 namespace ICal.C19
 open ICal.Recur ICal.CDict
 
@@ -281,5 +282,23 @@ example : rfcRecur "FREQ=DAILY;".toList = false := by decide                    
 example : rfcRecur "COUNT=2;FREQ=DAILY".toList = true ∧ rfcRecurFreqFirst "COUNT=2;FREQ=DAILY".toList = false := by
   decide                                                                                   -- grammar allows any order
 example : rfcRecurFreqFirst "RSCALE=HEBREW;FREQ=YEARLY;BYMONTH=5L;SKIP=BACKWARD".toList = true := by decide
+
+/-! ### `vRecur.parse_type` / `from_ical` / `to_ical` as regenerated (wave 6)
+
+`Bodies.recurParseTypeP` / `recurFromP` / `recurToP` are the translated functions with the pieces of
+ICal/Model/RecurPieces.lean. -/
+
+/-- the part class is looked up by the key (caseless, default vText), every part of `values.split(',')` is decoded -/
+theorem body_vRecur_parse_type (k v : Str) : Bodies.recurParseTypeP k v = Bodies.liftCR (parseType k v) :=
+  Bodies.parse_type_eq k v
+
+theorem body_vRecur_from_ical (t : Str) : Bodies.recurFromP t = Bodies.liftCR (recurFrom t) := Bodies.from_ical_eq t
+
+theorem body_vRecur_to_ical (r : Rule) : Bodies.recurToP r = Bodies.liftCR (recurTo r) := Bodies.to_ical_eq_recur r
+
+/-- a value that is no sequence is wrapped before it is encoded -/
+theorem body_vRecur_to_ical_wraps (k : Str) (v : PartVal) (rest : List (Str × PyRT.PyOneMany PartVal)) :
+    Bodies.recurToItemsP ((k, .one v) :: rest) = Bodies.recurToItemsP ((k, .many [v]) :: rest) :=
+  Bodies.to_ical_wraps k v rest
 
 end ICal.C19
